@@ -16,8 +16,14 @@ RULE = ('documents: 3 tables, each with a Ref column R and a RefList column L wh
         'ActionSummary.update_new_rows_map/translate_new_row_ids on random argument lists; a bundle is non-trivial '
         'when a temporary id defined by an add is used later in the bundle or an unresolved negative id occurs. '
         'Add requests also hold explicit ids in any position and, rarely, 0 or a repeated explicit id (rejected).')
-TRUSTED = ['Model/TempIds.v (hand-written): compared with the running engine on every generated bundle '
-           '(retValues, row ids and R/L cells of every table) and with ActionSummary directly',
+TRUSTED = ['tmp2v translator (harness/tmp2v.py): update_new_rows_map, translate_new_row_ids, _reject_unresolved_temp_ids, '
+           'Reference[List]Column.prepare_new_values and the row-id preparation of doBulkUpdateRecord / doBulkRemoveRecord '
+           '-> Gallina on every run; validated each run by vm_compute of the generated definitions against the running '
+           'functions / the source statements executed as they are',
+           'pinned by AST shape, not translated: convert_action_values is called on (table_id, row_ids, columns) right after '
+           'the update preparation; the removal clean-up loop asks get_updates_for_removed_target_rows(row_id_set)',
+           'the bundle interpreter of Model/TempIds.v around those functions (doc actions on rows and R/L cells, '
+           'reference clean-up): hand-written, compared with the running engine on every generated bundle',
            'Model/RowIds.alloc for the ids an add allocates (proved equal to the loops translated from the source, C27)',
            'cell conversion (usertypes convert, C22) is applied by the harness for the small vocabulary used: '
            'int -> int, None -> 0 / None, [] -> None, text -> alt text',
@@ -663,15 +669,18 @@ def replay(ctx, w):
   return None if v is None else '%s: %s' % v
 
 
-TECHNIQUE = ('Coq proof over a hand-written model of the new-rows map, its use for row-id arguments and Ref/RefList '
-             'values, and a bundle interpreter; differential bundles against the real engine + metamorphic impl oracle')
-LEVEL_TEXT = ('Kernel-checked: after update_new_rows_map a temporary id translates to the id allocated for its last '
-              'occurrence (for every history of adds: the last mapping wins), other ids and tables are untouched; Ref and '
-              'RefList values are translated per target table and any negative id left is rejected; in the bundle '
-              'interpreter an update/removal/reference naming a temporary id acts exactly as one naming the allocated row.')
-LEVEL_NOTE = ('Hand-written model (Model/TempIds.v) tied to the code by differential bundles on the real engine and direct '
-              'calls of ActionSummary each run; allocation uses Model/RowIds.alloc (translated loops, C27). "No trace" after '
-              'a rejected bundle is the engine rollback (C04), observed on the implementation, not modelled.')
+TECHNIQUE = ('Coq proof over the temporary-id code translated from source on every run (tmp2v) and bridged pointwise to the '
+             'model + hand-written bundle interpreter; differential bundles against the real engine, translator '
+             'validation by vm_compute, metamorphic impl oracle')
+LEVEL_TEXT = ('Kernel-checked, on the code as translated from /repo each run: after update_new_rows_map a temporary id '
+              'translates to the id allocated for its last occurrence (for every history of adds the last mapping wins), '
+              'other ids and tables are untouched; Ref and RefList values are translated per target table and any negative '
+              'id left is rejected; updates (after keep-last de-duplication) and removals hand the doc action and the '
+              'reference clean-up the allocated ids; in the bundle interpreter they act exactly as on the allocated rows.')
+LEVEL_NOTE = ('Regenerated and bridged: action_summary update_new_rows_map/translate_new_row_ids, column '
+              '_reject_unresolved_temp_ids and both prepare_new_values, the row-id preparation of doBulkUpdateRecord and '
+              'doBulkRemoveRecord. Hand-written and tied by differential bundles: the interpreter around them. "No trace" '
+              'after a rejected bundle is the engine rollback (C04), observed on the implementation, not modelled.')
 
 
 # ------------------------------------------------------------------------------------------------
